@@ -625,6 +625,58 @@ def rule_concat(ctx) -> RuleResult:
                      f"add_save_concatenated writes the object's '{fld}' array into the concatenated data and index (update_array_attribute(child, '{fld}')); "
                      f"remove_entity never removes those rows (update_array_attribute(entity, '{fld}', remove=True)): the removed object's rows stay in the group's "
                      "arrays on file")
+    # concatenated data are loaded lazily: the accessors of the object that load them (they reach create_from_concatenation) are the
+    # only way to get hold of the members of a property group that were never loaded in this session.  On the paths of a property
+    # group that HAS members, the removal goes through such an accessor of the parent (a scan of the loaded children finds nothing
+    # right after opening the file: the group would go, its data stay)
+    co = p.cls("ConcatenatedObject")
+    loaders, grew = set(), True
+    owners = [c for c in co.mro if not isinstance(c, str)] + p.subclasses(co, strict=True)
+    meths = {}
+    for c in owners:
+        for nm, f_ in c.methods.items():
+            meths.setdefault(nm, []).append(f_)
+    while grew:
+        grew = False
+        for nm, fs in meths.items():
+            if nm in loaders:
+                continue
+            for f_ in fs:
+                s_ = f_.self_name
+                if any(isinstance(c, ast.Call) and (name_of(c.func) == "create_from_concatenation"
+                                                     or (isinstance(c.func, ast.Attribute) and c.func.attr in loaders and unparse(c.func.value) == s_))
+                       for c in ast.walk(f_.node)):
+                    loaders.add(nm)
+                    grew = True
+                    break
+    if not loaders:
+        raise AnalysisError("C05.CONCAT: no lazily loading accessor (a method reaching create_from_concatenation) found on ConcatenatedObject")
+    has_members = {f"truthy:{ent}.properties": True, f"notnone:{ent}.properties": True}
+
+    def is_loader_call(c):
+        return isinstance(c, ast.Call) and isinstance(c.func, ast.Attribute) and c.func.attr in loaders and F.xt(c.func.value) in (f"{ent}.parent", f"{ent}._parent")
+
+    def loads_members(n):
+        if F.has_call(n, is_loader_call):
+            return True
+        # a loop over the members themselves (known to be non-empty on these paths) runs at least once: what its body does is done
+        if n.kind == "foriter" and isinstance(n.stmt, ast.For):
+            from ..kinds import tv as _tv
+            from ._c05_sem import _Bools
+
+            it = _Bools().visit(F.x(n.stmt.iter))
+            if _tv(it, ent, has_members) is True and any(is_loader_call(c) for s_ in n.stmt.body for c in ast.walk(s_)):
+                return True
+        return False
+
+    ok = every_path("ConcatenatedPropertyGroup", loads_members, has_members)
+    res.inst("remove_entity, ConcatenatedPropertyGroup with members: they are looked up through a loading accessor of the parent "
+             f"({', '.join(sorted(loaders))}) on every normal path", nontrivial=True, ok=ok)
+    if not ok:
+        res.find("Concatenator", "remove_entity", "ConcatenatedPropertyGroup: members not looked up through a loading accessor of the parent", fn.where,
+                 "concatenated data are loaded lazily; a path removes a property group that has members without going through an accessor of the parent "
+                 f"that loads them ({', '.join(sorted(loaders))}): right after opening the file the group goes and its never-loaded data stay "
+                 "(records, rows and the parent's Property:<name> links)")
     for K, what, pred, msg in checks:
         present = any(pred(n) for n in g.nodes)
         ok = present and every_path(K, pred)
@@ -1378,4 +1430,106 @@ def rule_deferred(ctx) -> RuleResult:
     return res
 
 
-RULES = [rule_guard, rule_itermut, rule_sibling, rule_scrub, rule_file, rule_oneshot, rule_concat, rule_sweep, rule_alias, rule_childref, rule_deferred]
+# --------------------------------------------------------------------------------------------------------------------------
+# C05.MEMBER — list.remove raises when the element is gone.  While remove_children works through its request, the scrub of
+# one child can RE-ENTER remove_children for another one (removing the last datum of a property group deletes the emptied
+# group, which is a child too), so "it was a child when the request was filtered" does not hold any more when its turn comes:
+# every in-place `self._children.remove(x)` must be unreachable, within its iteration, when x is not in self._children
+# (a membership test on the way, or the removal tolerates the miss).  Otherwise the loop aborts half-way: the remaining
+# children are not removed and the file unlink is skipped.
+def _reached_when_absent(F, starts, goal, elem, own, through_loops=False):
+    """nodes reachable on normal paths from `starts` when `elem` is NOT in the list `own`: membership tests of that element in that list
+    (aliases undone) take the branch of "absent"; the search stops at `goal` and (unless through_loops) at the next loop head"""
+    def absent(e):
+        if isinstance(e, ast.Compare) and len(e.ops) == 1 and isinstance(e.ops[0], (ast.In, ast.NotIn)) \
+                and unparse(e.left) == elem and unparse(e.comparators[0]) == own:
+            return isinstance(e.ops[0], ast.NotIn)
+        if isinstance(e, ast.Call) and isinstance(e.func, ast.Attribute) and e.func.attr in ("count", "__contains__") and len(e.args) == 1 \
+                and unparse(e.func.value) == own and unparse(e.args[0]) == elem:
+            return False
+        return None
+
+    seen, stack = set(), list(starts)
+    while stack:
+        x = stack.pop()
+        if x in seen:
+            continue
+        seen.add(x)
+        if x is goal or (x.kind == "fornext" and not through_loops):
+            continue
+        succ = x.succ
+        if x.kind == "test":
+            v = _assume(F.test(x), absent)
+            if v is not None:
+                succ = [(m, l) for m, l in x.succ if l != ("false" if v else "true")]
+        stack.extend(m for m, l in succ if l not in ("exc", "raise"))
+    return seen
+
+
+def rule_member(ctx) -> RuleResult:
+    res = RuleResult(
+        "C05.MEMBER",
+        "C05",
+        "in every remove_children implementation that edits self._children in place, `self._children.remove(x)` cannot be reached — from "
+        "the start of its loop iteration — when x is not (any more) in self._children: a membership test decides on the way, or the "
+        "removal sits in a try / suppress",
+        floor=2,
+    )
+    p = ctx.p
+    base = p.cls("EntityContainer")
+    impls = {}
+    for K in p.subclasses(base):
+        m = K.lookup("remove_children")
+        if m and m[1] == "method":
+            impls.setdefault(m[2], []).append(K)
+    if not impls:
+        raise AnalysisError("C05.MEMBER: no remove_children implementation found on the EntityContainer family")
+    for fn0 in sorted(impls, key=lambda f: f.qualname):
+        fn = sem_view(ctx, fn0)
+        sn = fn.self_name
+        F = Fx(fn)
+        g = F.g
+        own = f"{sn}._children"
+        sites = []  # (node, removed element text)
+        for n in g.nodes:
+            if n.kind != "stmt":
+                continue
+            for c in F.calls(n):
+                if isinstance(c.func, ast.Attribute) and c.func.attr == "remove" and len(c.args) == 1 and F.xt(c.func.value) == own:
+                    sites.append((n, F.xt(c.args[0])))
+        res.inst(f"{fn.qualname}: {len(sites)} in-place `{own}.remove(..)`", nontrivial=True)
+        for n, elem in sites:
+            if any(l == "exc" for _, l in n.succ):
+                res.inst(f"{fn.qualname}:{n.lineno} {own}.remove({elem}) tolerates a miss (try / suppress)", nontrivial=True, ok=True)
+                continue
+
+            # the start of the iteration the removal belongs to (the innermost loop head that reaches it and that it reaches back), else the entry
+            heads = [h for h in g.nodes if h.kind == "fornext" and n in F.reach([m for m, l in h.succ if l == "loop"], stop=lambda x: x.kind == "fornext")
+                     and h in F.reach([m for m, _ in n.succ])]
+            starts = [m for h in heads[-1:] for m, l in h.succ if l == "loop"] or [g.entry]
+            seen = _reached_when_absent(F, starts, n, elem, own)
+            if n in seen and heads and isinstance(heads[-1].stmt, ast.For) and unparse(heads[-1].stmt.target) == elem:
+                # the loop draws its elements from a LAZY generator of the object: what the generator tests right before it yields an
+                # element holds when the body starts on that element
+                it = F.x(heads[-1].stmt.iter)
+                gen = None
+                if isinstance(it, ast.Call) and isinstance(it.func, ast.Attribute) and unparse(it.func.value) == sn and fn.cls is not None:
+                    m_ = fn.cls.lookup(it.func.attr)
+                    gen = m_[2] if m_ and m_[1] == "method" else None
+                if gen is not None and any(isinstance(y, ast.Yield) for y in ast.walk(gen.node)) and not any(isinstance(y, ast.YieldFrom) for y in ast.walk(gen.node)):
+                    G = Fx(gen)
+                    gown = f"{gen.self_name}._children"
+                    ys = [(yn, G.xt(y.value)) for yn in G.g.nodes for y in ([x for x in ast.walk(yn.ast) if isinstance(x, ast.Yield)] if yn.ast is not None and not isinstance(yn.ast, list) and yn.kind != "with" else [])
+                          if y.value is not None]
+                    if ys and all(yn not in _reached_when_absent(G, [G.g.entry], yn, ye, gown, through_loops=True) for yn, ye in ys):
+                        seen = set()
+            ok = n not in seen
+            res.inst(f"{fn.qualname}:{n.lineno} {own}.remove({elem}) not reached when {elem} is not in the list", nontrivial=True, ok=ok)
+            if not ok:
+                res.find(fn.cls.name, fn.name, "in-place removal reached for an element that may be gone from self._children", f"{fn.module.relpath}:{n.lineno}",
+                         f"the scrub of one child can re-enter remove_children for another (the last datum of a property group takes the emptied group with it): "
+                         f"by the time its turn comes {elem} may not be in {own} any more, list.remove raises, the loop aborts and the file unlink is skipped")
+    return res
+
+
+RULES = [rule_guard, rule_itermut, rule_sibling, rule_scrub, rule_file, rule_oneshot, rule_concat, rule_sweep, rule_alias, rule_childref, rule_deferred, rule_member]
